@@ -24,9 +24,9 @@ def ring_ns(tier):
 def ring_raws(n):
     """raw scenario files for capacity n (the largest capacity is generated family by family)"""
     if n <= 4:
-        return [scen.ring_raw(n), scen.ring_raw(n, families=['conv', 'faults'])]
-    return [scen.ring_raw(n, families=['conv', 'faults'])] + [scen.ring_raw(n, families=f) for f in (['single', 'positional', 'bulk', 'access', 'ctor', 'faults'],
-                                                    ['fill', 'extend', 'faults'], ['drain', 'faults'], ['iter'])]
+        return [scen.ring_raw(n), scen.ring_raw(n, families=['conv', 'faults', 'provided'])]
+    return [scen.ring_raw(n, families=['conv', 'faults', 'provided'])] + [scen.ring_raw(n, families=f) for f in (['single', 'positional', 'bulk', 'access', 'ctor', 'faults'],
+                                                    ['fill', 'extend', 'faults'], ['drain', 'faults', 'provided'], ['iter', 'provided'])]
 
 
 WIDE_FAMILIES = ['single', 'positional', 'bulk', 'access']
@@ -96,9 +96,33 @@ def run_unit(name, scenarios, feat='default'):
     for f in agg['fails']:
         by_scn.setdefault((f['shard'], f['scn']), []).append(f)
     agg['failing'] = []
+    # one pass over each shard's files (a change that breaks nearly every scenario makes this list very long)
+    want = {}
+    for (shard, sid) in by_scn:
+        want.setdefault(shard, set()).add(sid)
+    lines_of, traces_of = {}, {}
+    scn_re = re.compile(r'"scn":"([^"]*)"')
+    for shard, ids in want.items():
+        pth = os.path.join(agg['work'], 'scen_%d.ndjson' % shard)
+        if os.path.exists(pth):
+            for line in open(pth):
+                try:
+                    sid = json.loads(line).get('id')
+                except Exception:
+                    continue
+                if sid in ids:
+                    lines_of[(shard, sid)] = line.rstrip('\n')
+        pth = os.path.join(agg['work'], 'trace_%d.ndjson' % shard)
+        if os.path.exists(pth):
+            for line in open(pth):
+                m = scn_re.search(line)
+                if m and m.group(1) in ids:
+                    t = traces_of.setdefault((shard, m.group(1)), [])
+                    if len(t) < 400:
+                        t.append(line.rstrip('\n'))
     for (shard, sid), fl in by_scn.items():
-        agg['failing'].append({'scn': sid, 'fails': fl, 'scenario': core.scenario_line(agg['work'], shard, sid),
-                               'trace': core.scenario_trace(agg['work'], shard, sid)[:400]})
+        agg['failing'].append({'scn': sid, 'fails': fl, 'scenario': lines_of.get((shard, sid)),
+                               'trace': traces_of.get((shard, sid), []) if len(agg['failing']) < 2000 else []})
     shutil.rmtree(agg['work'], ignore_errors=True)
     agg['cached'] = False
     cache_put(key, agg)
@@ -201,6 +225,9 @@ def judge(pid, units, tier, t0, level, coverage_extra, assumptions, relevant=Non
     seen = 0
     for v in viol:
         path = os.path.join(vdir, re.sub(r'[^A-Za-z0-9_.-]', '_', str(v['scn'])) + '.json')
+        if seen >= 200:         # replay files for the first 200 violating scenarios; the rest are counted
+            seen += 1
+            continue
         json.dump({'property': pid, 'scenario': json.loads(v['failing']['scenario']) if v['failing'].get('scenario') else None,
                    'labels': v['labels'], 'fails': v['failing']['fails'], 'trace': v['failing'].get('trace'),
                    'crash': v['failing'].get('crash'),
@@ -325,6 +352,10 @@ def check_ring(pid, tier, t0):
         # configurations and read the crates its library links against from the metadata
         cov['feature_builds'] = crate_config_builds()
         build_viol = [b for b in cov['feature_builds'] if not b['ok']]
+    if pid == 'C11':
+        # byte buffers: no stream call panics, for any argument (consume(usize::MAX), destinations longer than the contents)
+        ios, iostats = io_scenarios(tier, ['std'])
+        units.append(run_unit('io-std-%s-%d' % (tier, seed()), ios))
     if pid == 'C12':
         # constructors and conversions under injected faults (their ownership clauses are labelled C12 too)
         fs, fstats = ring_scenarios(tier, 'plain', lambda t, r: FAULTY(t))
@@ -398,8 +429,10 @@ def check_c04(tier, t0):
     variants = ['back:00', 'back:ff', 'front:5a', 'back:stale', 'front:live'] if tier == 'quick' else \
                ['back:00', 'back:ff', 'back:5a', 'back:stale', 'back:live', 'front:00', 'front:ff', 'front:5a', 'front:stale', 'front:live']
     groups = {}
-    for v in variants:
-        scs, stats = ring_scenarios(tier, v, want)
+    for vi, v in enumerate(variants):
+        # the scripts with provided Iterator methods run under the first garbage variant only in the quick tier
+        w2 = want if (vi == 0 or tier != 'quick') else (lambda t, r: want(t, r) and 'provided' not in t)
+        scs, stats = ring_scenarios(tier, v, w2)
         u = run_unit('ring-C04-%s-%s' % (tier, v), scs)
         units.append(u)
         all_scs += scs[:50]
@@ -719,7 +752,7 @@ def setup(argv):
     # 3. scenario generation (TLC over Ring.tla, cached by spec hash)
     import concurrent.futures as cf
     ns = ring_ns('thorough' if '--thorough' in argv else 'quick')
-    jobs = [(n, None) for n in ns if n <= 4] + [(n, ['conv', 'faults']) for n in ns if n <= 4] + [(n, ['io']) for n in ([0, 1, 2, 3] if '--thorough' not in argv else [0, 1, 2, 3, 4, 5])]
+    jobs = [(n, None) for n in ns if n <= 4] + [(n, ['conv', 'faults', 'provided']) for n in ns if n <= 4] + [(n, ['io']) for n in ([0, 1, 2, 3] if '--thorough' not in argv else [0, 1, 2, 3, 4, 5])]
     with cf.ThreadPoolExecutor(max_workers=11) as ex:
         zjobs = {nm: ex.submit(scen.z_raw, nm) for nm in (7, 6, 5, 4, 3)}      # the longest ones first
         for raw, st in ex.map(lambda j: scen.ring_raw(j[0], families=j[1]), jobs):
